@@ -1348,7 +1348,7 @@ class WindowGen(Gen):
 # non-equality correlated [NOT] EXISTS over duplicate outer rows, CTEs referenced from a subquery
 # and from the main query, chained set operations with mixed quantifiers, wide integer group keys.
 class Shapes2(OptShapes):
-    SHAPES = ["pjk_skew", "having_topn", "topn_offset", "corr_exists_noneq", "corr_exists_or", "cte_multi", "cte_semi", "setop_chain", "agg_wide", "union_join_str", "samecols_semi", "limit_zero", "spill_join"]
+    SHAPES = ["pjk_skew", "having_topn", "topn_offset", "corr_exists_noneq", "corr_exists_or", "cte_multi", "cte_semi", "setop_chain", "agg_wide", "union_join_str", "samecols_semi", "limit_zero", "spill_join", "limit_unordered"]
 
     def case(self, cid):
         r = self.rng
@@ -1612,6 +1612,21 @@ class Shapes2(OptShapes):
         fsql = f"t0 AS {a0} {kind.upper()} JOIN t1 AS {a1} ON {on.sql}"
         fm = {"k": "join", "kind": kind, "l": {"k": "table", "name": "t0"}, "r": {"k": "table", "name": "t1"}, "on": on.m, "ln": 2, "rn": 2}
         return self.sel(fsql, fm, [sc.ref(0, 0), sc.ref(0, 1), sc.ref(0, 3)]), [t0, t1]
+
+    # --- C01/C25/C07: LIMIT n OFFSET m WITHOUT ORDER BY over inputs that arrive in several batches / partitions: which rows come
+    # back is free, HOW MANY is not (min(n, max(0, rows - m))), and every returned row is a row of the input -------------------
+    def s2_limit_unordered(self):
+        r = self.rng
+        n = r.randint(6, 14)
+        t0 = self.tab("t0", [("a0", "int"), ("b0", "int")], [[i, r.randint(0, 3)] for i in range(n)], ("a0", "b0"))
+        a0, sc = self.tref(t0)
+        w = self.cmp(sc.ref(0, 1), r.choice(["<=", ">=", "<>"]), Lit("int", r.randint(0, 3))) if r.random() < 0.25 else None
+        lim, off = r.randint(1, n + 2), r.randint(0, n)
+        q = self.sel(a0, {"k": "table", "name": "t0"}, [sc.ref(0, 0), sc.ref(0, 1)], where=w, limit=lim)
+        if off:
+            q = Q(q.sql + f" OFFSET {off}", q.m, q.cols)
+            q.m["offset"] = off
+        return q, [t0]
 
     # --- C45: a table that is only read under a LIMIT 0 (set-operation branch or sub-query): it still has to be there to bind -
     def s2_limit_zero(self):
